@@ -195,7 +195,10 @@ def ddmin(exe, prop, config, text, want_sig, workdir, budget=400):
     return join_program(head, ops)
 
 
-def run_shards(exe, prop, config, n_shards, max_success, max_size, workdir, tag, timeout=3600):
+STOPPED = []  # shards that reached their time limit in this process (inconclusive remainder)
+
+
+def run_shards(exe, prop, config, n_shards, max_success, max_size, workdir, tag, timeout=None):
     """-> (list of stats dicts, list of Outcome for failures/crashes)"""
     os.makedirs(workdir, exist_ok=True)
     procs = []
@@ -207,15 +210,24 @@ def run_shards(exe, prop, config, n_shards, max_success, max_size, workdir, tag,
         p = subprocess.Popen([exe, "--prop", prop, "--config", config, "--rc", "--out", workdir,
                               "--shard", shard], stdout=subprocess.DEVNULL, stderr=errf, env=env)
         procs.append((p, shard, errf))
+    if timeout is None:
+        timeout = int(os.environ.get("VF_SHARD_TIMEOUT", "1500"))
     stats, outcomes = [], []
     deadline = time.time() + timeout
     for p, shard, errf in procs:
         try:
             rc = p.wait(timeout=max(1, deadline - time.time()))
         except subprocess.TimeoutExpired:
-            p.kill()
-            p.wait()
-            rc = None
+            # time limit: ask the shard to stop before its next case (it writes its statistics);
+            # never a violation, but reported (see STOPPED)
+            p.terminate()
+            try:
+                rc = p.wait(timeout=45)  # 0 after a clean stop; a failure found meanwhile keeps its code
+            except subprocess.TimeoutExpired:
+                p.kill()
+                p.wait()
+                rc = None
+            STOPPED.append(shard)
         errf.close()
         sp = os.path.join(workdir, "stats-%s.json" % shard)
         if os.path.exists(sp):
